@@ -213,12 +213,13 @@ static void deliver_ps(int s, const m_evt_t *e, int idx_in_inv, int *is_trigger_
 }
 
 /* an owed message was not handed over: excused only if a full mailbox (injected) may have swallowed that copy, or the send failed as a whole */
-static int owed_excused(int msg) {
-    msg_t *g = &MSG[msg];
+static int owed_excused(int s, int k) {    /* a copy that may have been lost to a full mailbox stays excused: the entry becomes optional */
+    pend_t *e = &MD[s].mb[k]; msg_t *g = &MSG[e->msg];
     if (g->rc_neg && g->delivered == 0) return 1;       /* the failing send reached nobody */
-    if (g->may_vanish > 0) { g->may_vanish--; return 1; }
+    if (g->may_vanish > 0) { g->may_vanish--; e->optional = 1; g->owed--; return 1; }
     return 0;
 }
+static const int ENV_SIGS[3] = { SIGUSR1, SIGUSR2, 34 };
 static int find_src(int s, int kind, int key) { for (int i = 0; i < MAXSRC; i++) if (MD[s].src[i].present && MD[s].src[i].kind == kind && MD[s].src[i].key == key) return i; return -1; }
 
 static void handle_events(int s, const m_queue_t *evts, int handler_id) {
@@ -274,6 +275,18 @@ static void handle_events(int s, const m_queue_t *evts, int handler_id) {
                 if (e->tmr_evt->ns != TPER[m->src[si].key]) vfail("EV.owner", "EV.owner|tmr-value", "%s: timer event reports %lu ns, registered %lu", m->name, (unsigned long)e->tmr_evt->ns, (unsigned long)TPER[m->src[si].key]);
                 if (!m->src[si].fired) vfail("EV.ghost", "EV.ghost|tmr", "%s received a timer event although the timer did not expire", m->name);
                 m->src[si].fired = 0; trig = (size_t)(i + 1) >= eff_batch(s); cur_evrec[i] = new_evrec(e, 2, -1, m->src[si].key); obs(7000 + si);
+                if (m->src[si].flags & 2) m->src[si].present = 0;
+                break; }
+            case M_SRC_TYPE_SGN: case M_SRC_TYPE_PATH: case M_SRC_TYPE_PID: {
+                int kind = e->type == M_SRC_TYPE_SGN ? K_SGN : e->type == M_SRC_TYPE_PATH ? K_PATH : K_PID, si = -1;
+                for (int j = 0; j < MAXSRC; j++) if (m->src[j].present && m->src[j].kind == kind && e->userdata == &SRCUP[s][j]) si = j;
+                if (si < 0) vfail("EV.owner", "EV.owner|env", "%s received a %s event whose user pointer matches none of its sources of that kind", m->name, KN[kind]);
+                int key = m->src[si].key;
+                if (kind == K_SGN && (int)e->sgn_evt->signo != ENV_SIGS[key]) vfail("EV.owner", "EV.owner|sgn-value", "%s: signal event reports %u, registered %d", m->name, e->sgn_evt->signo, ENV_SIGS[key]);
+                if (kind == K_PATH && (!e->path_evt->path || strcmp(e->path_evt->path, PATHS[key]))) vfail("EV.owner", "EV.owner|path-value", "%s: path event reports another path", m->name);
+                if (kind == K_PID && e->pid_evt->pid != CHILD[key]) vfail("EV.owner", "EV.owner|pid-value", "%s: pid event reports %d, registered %d", m->name, e->pid_evt->pid, CHILD[key]);
+                if (m->src[si].fired <= 0) vfail("EV.ghost", "EV.ghost|env", "%s received a %s event although nothing happened", m->name, KN[kind]);
+                m->src[si].fired--; trig = (size_t)(i + 1) >= eff_batch(s); cur_evrec[i] = new_evrec(e, 3 + kind, -1, key); obs(8000 + kind * 10 + key);
                 if (m->src[si].flags & 2) m->src[si].present = 0;
                 break; }
             default: vfail("EV.type", "EV.type", "%s received an event of unexpected type %d", m->name, e->type);
